@@ -91,7 +91,7 @@ def work_contract(job):
         rec['gen_s'] = res['gen_s']
         rec['trivial'] = eng.trivial
         open_by_name = {}
-        fallback_spent, fallback_budget = 0.0, (120.0 if tier == 'quick' else 1800.0)     # seconds per contract (shard) for portfolio / candidate search / cvc5 on obligations z3 left open
+        fallback_spent, fallback_budget = 0.0, (120.0 if tier == 'quick' else 1800.0)     # seconds per contract (shard) for portfolio / candidate search / cvc5 on obligations z3 left open; applies only once an obligation of the contract IS open (a contract whose obligations all go through keeps the full effort however loaded the machine is)
         direct_hit = {}       # clause name -> replayed failure (input-independent replays are run once per clause)
         for oi, o in enumerate(res['obls']):
             if oi % nshards != shard:
@@ -105,7 +105,7 @@ def work_contract(job):
             # a contract with many open obligations (a changed function body): the rest gets one cheap attempt each
             # (the same clause open on several paths already: further paths of that clause get one cheap attempt each; other clauses keep the full effort)
             same_open = open_by_name.get(o.name, 0)
-            d = discharge(o, tier, second_opinion=(tier == 'thorough'), cvc5_ok=(fallback_spent < fallback_budget and same_open < 3), rl_div=(8 if same_open >= 3 else 1))
+            d = discharge(o, tier, second_opinion=(tier == 'thorough'), cvc5_ok=((fallback_spent < fallback_budget or not open_by_name) and same_open < 3), rl_div=(8 if same_open >= 3 else 1))
             fallback_spent += d.get('cvc5_fallback_seconds', 0) or 0
             if d['status'] != 'proved':
                 open_by_name[o.name] = same_open + 1
